@@ -132,13 +132,24 @@ impl StateSpace for SO2StateSpace {
 
     /// Modifies the state by clamping each of its values to the space's bounds.
     fn enforce_bounds(&self, state: &mut Self::StateType) {
-        state.normalise();
-
-        if self.satisfies_bounds(state) {
-            return;
-        };
-
         let (min_b, max_b) = self.bounds;
+
+        // Already a canonical angle inside the interval: leave it untouched.
+        if state.value >= min_b && state.value <= max_b {
+            return;
+        }
+
+        *state = state.normalise();
+        if state.value >= min_b && state.value <= max_b {
+            return;
+        }
+
+        // -PI and +PI are one configuration: use the representation that lies inside the interval.
+        if state.value.abs() >= PI && -state.value >= min_b && -state.value <= max_b {
+            state.value = -state.value;
+            return;
+        }
+
         let dist_to_min = self.distance(&SO2State { value: min_b }, state);
         let dist_to_max = self.distance(&SO2State { value: max_b }, state);
 
@@ -149,11 +160,11 @@ impl StateSpace for SO2StateSpace {
         }
     }
 
-    /// Checks if a state is within the defined angular bounds.
     fn satisfies_bounds(&self, state: &Self::StateType) -> bool {
         let val = state.clone().normalise().value;
         let (lower, upper) = self.bounds;
-        val >= lower && val <= upper
+        // normalise() maps +PI to -PI: an interval that reaches +PI contains that configuration.
+        (val >= lower && val <= upper) || (upper >= PI && val <= -PI)
     }
 
     /// Generates a random angle from within the defined bounds.
